@@ -238,6 +238,33 @@ impl ClockCache {
     }
 
     /// CLOCK algorithm eviction - scan entries circularly, evicting those without reference bit
+    /// True when an entry for exactly this generation is held. Does not set the reference bit.
+    #[cfg(feoxdb_verif)]
+    pub(crate) fn verif_holds(&self, key: &[u8], record: &Arc<Record>) -> bool {
+        let hash = murmur3_32(key, 0);
+        let bucket_idx = (hash as usize) % CACHE_BUCKETS;
+        self.buckets[bucket_idx].read().iter().any(|entry| {
+            entry.key == key
+                && entry
+                    .record
+                    .as_ref()
+                    .is_some_and(|cached| std::ptr::eq(cached.as_ptr(), Arc::as_ptr(record)))
+        })
+    }
+
+    /// `(entries, sum of entry sizes)` as actually held. Does not set reference bits.
+    #[cfg(feoxdb_verif)]
+    pub fn verif_totals(&self) -> (usize, usize) {
+        let mut entries = 0;
+        let mut bytes = 0;
+        for bucket in &self.buckets {
+            let bucket = bucket.read();
+            entries += bucket.len();
+            bytes += bucket.iter().map(|entry| entry.size).sum::<usize>();
+        }
+        (entries, bytes)
+    }
+
     pub fn evict_entries(&self) {
         // Try to acquire eviction lock, return if already evicting
         let _lock = match self.eviction_lock.try_lock() {
